@@ -186,11 +186,50 @@ def small_cases():
                     yield {"doc": d, "ops": [["insert", i, spec], ["append", spec]]}
 
 
+def insert_sequences():
+    """Every sequence of three insert/append calls (indices 0..3 / append) on documents of 1..2
+    paragraphs, with and without a free comment between them."""
+    spec = lambda n: {"fields": [[n, "v"]], "how": "assign"}     # noqa: E731
+    for two in (False, True):
+        for sep in ("\n", "\n# free\n\n"):
+            paras = [[{"n": "Alpha", "c": "", "b": " 1\n"}]] + ([[{"n": "Beta", "c": "# c\n", "b": " 2\n"}]] if two else [])
+            d = {"lead": "", "paras": paras, "seps": [sep] * (len(paras) - 1), "tail": "", "final_nl": True}
+            choices = [0, 1, 2, 3, None]
+            for a in choices:
+                for b in choices:
+                    for c in choices:
+                        ops = []
+                        for k, i in enumerate((a, b, c)):
+                            nm = ["Package", "X", "zed"][k]
+                            ops.append(["append", spec(nm)] if i is None else ["insert", i, spec(nm)])
+                        yield {"doc": d, "ops": ops}
+
+
+def order_then_sort():
+    """Unique-name paragraph, every single ordering operation followed by every sort key (some keys
+    rank several names equally: a stable sort keeps their *current* order), also twice."""
+    names = ["Alpha", "Gamma", "Delta", "X-y"]
+    p = [{"n": n, "c": "", "b": " v%d\n" % i} for i, n in enumerate(names)]
+    d = {"lead": "", "paras": [p], "seps": [], "tail": "", "final_nl": True}
+    keys = [[i, None, 0] for i in range(4)]
+    firsts = [["first", 0, k] for k in keys] + [["last", 0, k] for k in keys]
+    firsts += [[o, 0, k, r] for o in ("before", "after") for k in keys for r in keys if k != r]
+    firsts += [["sort", 0, sk] for sk in sorted(SORT_KEYS)]
+    for o1 in firsts:
+        for sk in sorted(SORT_KEYS):
+            yield {"doc": d, "ops": [o1, ["sort", 0, sk]]}
+            yield {"doc": d, "ops": [o1, ["sort", 0, sk], ["sort", 0, "length"]]}
+
+
 def sources(tier):
     if tier == "quick":
         return [Enum("small-docs", small_cases, "5 name shapes x 4 endings x 1-2 paragraphs x every single ordering op/key"),
+                Enum("insert-sequences", insert_sequences, "all 125 sequences of three insert/append calls x 4 documents"),
+                Enum("order-then-sort", order_then_sort, "every ordering op on a 4-field paragraph x 5 sort keys (x a second sort)"),
                 Hyp("dup-doc-histories", case_dups, 350, shards=8),
-                Hyp("uniq-doc-histories", case_uniq, 150, shards=4)]
+                Hyp("uniq-doc-histories", case_uniq, 300, shards=4)]
     return [Enum("small-docs", small_cases, "5 name shapes x 4 endings x 1-2 paragraphs x every single ordering op/key"),
+            Enum("insert-sequences", insert_sequences, "all 125 sequences of three insert/append calls x 4 documents"),
+            Enum("order-then-sort", order_then_sort, "every ordering op on a 4-field paragraph x 5 sort keys (x a second sort)"),
             Hyp("dup-doc-histories", case_dups, 12000, shards=12),
             Hyp("uniq-doc-histories", case_uniq, 8000, shards=4)]
